@@ -289,6 +289,7 @@ const (
 	MServerIdentifier                // WithOption(OptServerIdentifier(IP)): option 54 := 4 octets
 	MRequestedOptions                // WithRequestedOptions(Codes...): existing list, then the new codes not yet present
 	MGeneric                         // WithGeneric(Code, Val): option Code := Val
+	MRelay                           // WithRelay(IP): clear the broadcast bit, giaddr := IP (whatever it was), one more hop
 )
 
 // Mod is one modifier instance.
@@ -330,6 +331,8 @@ func (m Mod) String() string {
 		return fmt.Sprintf("WithRequestedOptions(%v)", m.Codes)
 	case MGeneric:
 		return fmt.Sprintf("WithGeneric(%d, %x)", m.Code, m.Val)
+	case MRelay:
+		return "WithRelay(" + ipStr(m.IP) + ")"
 	}
 	return "?"
 }
@@ -374,6 +377,10 @@ func (m Mod) Apply(p *Packet) {
 		p.Opts[OptPRL] = list
 	case MGeneric:
 		p.Opts[m.Code] = cp(m.Val)
+	case MRelay:
+		p.Flags &^= FlagBroadcast
+		p.GI = m.IP
+		p.Hops++
 	}
 }
 
